@@ -37,7 +37,7 @@ func collect(f *ast.File, fset *token.FileSet) []mutant {
 		case *ast.BinaryExpr:
 			if alts, ok := swap[n.Op]; ok {
 				for _, a := range alts {
-					n, a, old := n, a, n.Op
+					a, old := a, n.Op
 					if (old == token.ADD || old == token.SUB) && isString(n) {
 						continue
 					}
@@ -49,7 +49,6 @@ func collect(f *ast.File, fset *token.FileSet) []mutant {
 				ms = append(ms, mutant{n.OpPos, fmt.Sprintf("drop %s1", n.Op), func() { n.Y = &ast.BasicLit{Kind: token.INT, Value: "0"} }})
 			}
 		case *ast.IfStmt:
-			n := n
 			if _, isNot := n.Cond.(*ast.UnaryExpr); !isNot {
 				ms = append(ms, mutant{n.Cond.Pos(), "negate if condition", func() { n.Cond = &ast.UnaryExpr{Op: token.NOT, X: &ast.ParenExpr{X: n.Cond}} }})
 			}
@@ -57,11 +56,11 @@ func collect(f *ast.File, fset *token.FileSet) []mutant {
 			for i, s := range n.List {
 				switch st := s.(type) {
 				case *ast.ExprStmt, *ast.IncDecStmt, *ast.SendStmt:
-					n, i := n, i
+					i := i
 					ms = append(ms, mutant{s.Pos(), "delete statement", func() { n.List[i] = &ast.EmptyStmt{} }})
 				case *ast.AssignStmt:
 					if st.Tok != token.DEFINE {
-						n, i := n, i
+						i := i
 						ms = append(ms, mutant{s.Pos(), "delete assignment", func() { n.List[i] = &ast.EmptyStmt{} }})
 					}
 				}
